@@ -14,14 +14,14 @@ Proof. unfold is_block_name, tmp_name. cbn. apply andb_false_r. Qed.
 Definition veff (L : N) (e : eff) (j : nat) (v : vold) : vold :=
   match e with
   | ENone | ETouch _ => v
-  | EMkdir i => if Nat.eqb i j then {| d_ro := d_ro v; d_dir := true; d_blk := d_blk v; d_tmp := d_tmp v |} else v
-  | ECreate i => if Nat.eqb i j then {| d_ro := d_ro v; d_dir := d_dir v; d_blk := d_blk v; d_tmp := Some 0 |} else v
-  | EWrite i n => if Nat.eqb i j then {| d_ro := d_ro v; d_dir := d_dir v; d_blk := d_blk v; d_tmp := Some n |} else v
+  | EMkdir i => if Nat.eqb i j then {| d_ro := d_ro v; d_dir := true; d_blk := d_blk v; d_tmp := d_tmp v; d_full := d_full v |} else v
+  | ECreate i => if Nat.eqb i j then {| d_ro := d_ro v; d_dir := d_dir v; d_blk := d_blk v; d_tmp := Some 0; d_full := d_full v |} else v
+  | EWrite i n => if Nat.eqb i j then {| d_ro := d_ro v; d_dir := d_dir v; d_blk := d_blk v; d_tmp := Some n; d_full := d_full v |} else v
   | ERename i => if Nat.eqb i j then
       {| d_ro := d_ro v; d_dir := d_dir v;
          d_blk := match d_tmp v with Some n => Some (if n =? L then KGood else KCorrupt n) | None => d_blk v end;
-         d_tmp := None |} else v
-  | ERemoveTmp i => if Nat.eqb i j then {| d_ro := d_ro v; d_dir := d_dir v; d_blk := d_blk v; d_tmp := None |} else v
+         d_tmp := None; d_full := d_full v |} else v
+  | ERemoveTmp i => if Nat.eqb i j then {| d_ro := d_ro v; d_dir := d_dir v; d_blk := d_blk v; d_tmp := None; d_full := d_full v |} else v
   end.
 Fixpoint vrun (L : N) (es : list (string * eff)) (j : nat) (v : vold) : vold :=
   match es with [] => v | (_, e) :: r => vrun L r j (veff L e j v) end.
@@ -102,7 +102,7 @@ Proof.
 Qed.
 
 (* ---- the write phase on the target volume ---- *)
-Definition set_tmp (t : option N) (v : vold) : vold := {| d_ro := d_ro v; d_dir := d_dir v; d_blk := d_blk v; d_tmp := t |}.
+Definition set_tmp (t : option N) (v : vold) : vold := {| d_ro := d_ro v; d_dir := d_dir v; d_blk := d_blk v; d_tmp := t; d_full := d_full v |}.
 
 Lemma vrun_writes L i : forall n done v, (0 < n)%nat ->
   vrun L (write_steps i L done n) i v = set_tmp (Some (N.min L (N.of_nat (done + n) * CHUNK))) v.
@@ -155,10 +155,10 @@ Lemma vrun_write_core L i ex v : d_blk (vrun L (write_core i L ex) i v) = Some K
 Proof.
   unfold write_core, write_body. rewrite !vrun_app. rewrite (vrun_inert L (lock_steps ex)) by apply inert_lock.
   cbn [vrun veff]. rewrite !Nat.eqb_refl.
-  set (v1 := {| d_ro := d_ro _; d_dir := d_dir _; d_blk := d_blk _; d_tmp := Some 0 |}).
+  set (v1 := {| d_ro := d_ro _; d_dir := d_dir _; d_blk := d_blk _; d_tmp := Some 0; d_full := d_full _ |}).
   destruct (nwrites L) as [|n] eqn:En.
   - cbn [write_steps vrun]. subst v1. cbn. rewrite (nwrites_zero L En). split; reflexivity.
-  - rewrite vrun_writes by lia. cbn [set_tmp d_tmp d_blk d_ro d_dir]. rewrite Nat.add_0_l, <- En.
+  - rewrite vrun_writes by lia. cbn [set_tmp d_tmp d_blk d_ro d_dir d_full]. rewrite Nat.add_0_l, <- En.
     rewrite nwrites_covers by lia. rewrite N.eqb_refl. split; reflexivity.
 Qed.
 Lemma vrun_write_complete L i ex v : d_blk (vrun L (fst (write_block i L Complete ex)) i v) = Some KGood /\
@@ -236,6 +236,19 @@ Inductive shape (vs : list vold) (L : N) (src : source) : list (string * eff) ->
 | sh_write t i ex : inert t -> (i < List.length vs)%nat -> (match src with CancelledIn _ => False | _ => True end) ->
                  shape vs L src (t ++ fst (write_block i L src ex)) (snd (write_block i L src ex)).
 
+Lemma first_free_lt : forall vs i j, first_free vs i = Some j -> (i <= j < i + List.length vs)%nat.
+Proof.
+  induction vs as [|v r IH]; intros i j H; cbn [first_free] in H; [discriminate|]. cbn [List.length].
+  destruct (d_ro v || d_full v); [apply IH in H; lia|inversion H; lia].
+Qed.
+Lemma put_target_lt vs n i : put_target vs n = Some i -> (i < List.length vs)%nat.
+Proof.
+  unfold put_target. destruct (nth_writable vs (1 mod n) 0) as [j|] eqn:E; [|discriminate].
+  pose proof (nth_writable_lt _ _ _ _ E). destruct (vol_full vs j).
+  - intros X. apply first_free_lt in X. lia.
+  - intros X. inversion X; subst. lia.
+Qed.
+
 Lemma cat_ok_good : forall vs i, snd (compare_and_touch vs i) = true -> exists v, In v vs /\ d_ro v = false /\ d_blk v = Some KGood.
 Proof.
   induction vs as [|v r IH]; intros i; cbn [compare_and_touch]; [discriminate|].
@@ -257,8 +270,8 @@ Proof.
   all: pose proof (inert_cat vs 0) as Hi; pose proof (cat_ok_good vs 0) as Hg;
        destruct (compare_and_touch vs 0) as [t ok]; cbn [fst snd] in *; destruct ok;
        [cbn [fst snd]; apply sh_inert; [exact Hi|intros _; apply Hg; reflexivity]|];
-       destruct (nth_writable vs (1 mod S n) 0) as [i|] eqn:Ew; cbn [fst snd]; [|apply sh_inert; [exact Hi|discriminate]];
-       pose proof (nth_writable_lt _ _ _ _ Ew);
+       destruct (put_target vs (S n)) as [i|] eqn:Ew; cbn [fst snd]; [|apply sh_inert; [exact Hi|discriminate]];
+       pose proof (put_target_lt _ _ _ Ew);
        match goal with |- context [write_block ?i0 ?L0 ?src ?ex] =>
          destruct (write_block i0 L0 src ex) as [w' ok'] eqn:Eb; cbn [fst snd];
          replace w' with (fst (write_block i0 L0 src ex)) by (rewrite Eb; reflexivity);
@@ -396,3 +409,75 @@ Example ex_crash_mid : crash [D false true (Some (KCorrupt 5)) None] 40000 Compl
 Proof. vm_compute. reflexivity. Qed.
 Example ex_finish : finish [D false true (Some (KCorrupt 5)) None] 40000 Complete = [D false true (Some KGood) None].
 Proof. vm_compute. reflexivity. Qed.
+
+(* ---- full volumes: the fallback loop of PutBlock ---- *)
+Lemma nth_writable_some : forall vs k i, (k < nwritable vs)%nat -> exists j, nth_writable vs k i = Some j.
+Proof.
+  unfold nwritable. induction vs as [|v r IH]; intros k i H; cbn [filter List.length nth_writable] in *; [lia|].
+  destruct (d_ro v); cbn [negb] in *; [apply IH; exact H|].
+  destruct k as [|k]; [eexists; reflexivity|]. cbn [List.length] in H. apply IH. lia.
+Qed.
+Lemma first_free_some : forall vs i, (exists v, In v vs /\ d_ro v = false /\ d_full v = false) -> exists j, first_free vs i = Some j.
+Proof.
+  induction vs as [|v r IH]; intros i (x & Hin & A & B); [destruct Hin|]. cbn [first_free].
+  destruct Hin as [->|Hin]; [rewrite A, B; eexists; reflexivity|].
+  destruct (d_ro v || d_full v); [apply IH; eauto|eexists; reflexivity].
+Qed.
+Lemma first_free_none : forall vs i, (forall v, In v vs -> d_ro v = false -> d_full v = true) -> first_free vs i = None.
+Proof.
+  induction vs as [|v r IH]; intros i H; [reflexivity|]. cbn [first_free].
+  destruct (d_ro v) eqn:Er; cbn [orb]; [apply IH; intros x Hx; apply H; right; exact Hx|].
+  rewrite (H v (or_introl eq_refl) Er). apply IH. intros x Hx; apply H; right; exact Hx.
+Qed.
+Lemma nwritable_pos vs : (exists v, In v vs /\ d_ro v = false) -> (0 < nwritable vs)%nat.
+Proof.
+  unfold nwritable. intros (x & Hin & A). induction vs as [|v r IH]; [destruct Hin|]. cbn [filter].
+  destruct Hin as [->|Hin]; [rewrite A; cbn; lia|]. destruct (negb (d_ro v)); cbn [List.length]; [lia|apply IH; exact Hin].
+Qed.
+
+(* a complete upload is acknowledged whenever SOME writable volume is not full, whichever volume the
+   round-robin picked first (with put_ack_durable: and then the block is retrievable) *)
+Theorem put_some_free_acked vs L :
+  (exists v, In v vs /\ d_ro v = false /\ d_full v = false) -> snd (put_prog vs L Complete) = true.
+Proof.
+  intros Hfree. assert (Hw : (0 < nwritable vs)%nat) by (destruct Hfree as (x & A & B & _); apply nwritable_pos; eauto).
+  unfold put_prog. destruct (nwritable vs) as [|n] eqn:En; [lia|].
+  destruct (compare_and_touch vs 0) as [t ok]. destruct ok; [reflexivity|].
+  assert (Hm : (1 mod S n < nwritable vs)%nat) by (rewrite En; apply Nat.mod_upper_bound; lia).
+  destruct (nth_writable_some vs _ 0 Hm) as [j Ej]. unfold put_target. rewrite Ej.
+  destruct (vol_full vs j).
+  - destruct (first_free_some vs 0 Hfree) as [i Ei]. rewrite Ei. cbn [write_block]. reflexivity.
+  - cbn [write_block]. reflexivity.
+Qed.
+
+(* when every writable volume is full and no identical copy can be touched, the request is refused and
+   the write path takes no step beyond CompareAndTouch's: nothing on disk changes *)
+Theorem put_all_full_refused vs L :
+  (forall v, In v vs -> d_ro v = false -> d_full v = true) -> snd (compare_and_touch vs 0) = false ->
+  snd (put_prog vs L Complete) = false /\ inert (fst (put_prog vs L Complete)).
+Proof.
+  intros Hall Hcat. unfold put_prog. destruct (nwritable vs) as [|n] eqn:En; [split; [reflexivity|intros l e []]|].
+  pose proof (inert_cat vs 0) as Hi. destruct (compare_and_touch vs 0) as [t ok]. cbn [snd fst] in *. subst ok.
+  unfold put_target. destruct (nth_writable vs (1 mod S n) 0) as [j|] eqn:Ej; [|split; [reflexivity|exact Hi]].
+  destruct (nth_writable_rw _ _ _ _ Ej) as (x & Hx & Hro). rewrite Nat.sub_0_r in Hx.
+  unfold vol_full. rewrite Hx. rewrite (Hall x (nth_error_In _ _ Hx) Hro).
+  rewrite (first_free_none vs 0 Hall). split; [reflexivity|exact Hi].
+Qed.
+
+(* regression witness about a VARIANT only (PutBlock treats FullError from the round-robin volume as
+   success): acknowledged, nothing written, GET on the restarted server finds no block *)
+Definition put_prog_fullok (vs : list vold) (L : N) : list (string * eff) * bool :=
+  let '(t, ok) := compare_and_touch vs 0 in
+  if ok then (t, true)
+  else match nth_writable vs (Nat.modulo 1 (nwritable vs)) 0 with
+       | Some i => if vol_full vs i then (t, true) else let '(w, ok') := write_block i L Complete false in (t ++ w, ok')
+       | None => (t, false)
+       end.
+Theorem variant_full_as_success_refuted :
+  exists vs L, snd (put_prog_fullok vs L) = true /\ get_block (apply_all L (fst (put_prog_fullok vs L)) vs) 404 = GErr 404 /\
+               snd (put_prog vs L Complete) = true /\ get_block (finish vs L Complete) 404 = GData.
+Proof.
+  exists [ {| d_ro := false; d_dir := false; d_blk := None; d_tmp := None; d_full := false |};
+           {| d_ro := false; d_dir := false; d_blk := None; d_tmp := None; d_full := true |} ], 5.
+  vm_compute. repeat split; reflexivity.
+Qed.
